@@ -7,7 +7,13 @@
 (* requests included (an empty allocation occupies its own address).               *)
 EXTENDS Integers, Sequences, FiniteSets, TLC
 
-VARIABLES live,      \* set of [a |-> address, n |-> size] live allocations
+(* FALSE: the property as stated.  TRUE additionally admits the recorded deviation of LinuxEnvironment.brk ("Alloc missing and   *)
+(* override"): moving the break over a region somebody else mapped inside the brk area absorbs that region into the data         *)
+(* segment instead of failing - used ONLY to re-validate histories the strict specification rejected, to tell this known         *)
+(* finding from any other violation.                                                                                             *)
+CONSTANT BrkAbsorbs
+
+VARIABLES live,      \* set of [a |-> address, n |-> size, k |-> kind of request] live allocations
           pages,     \* sequence of [base, size]: the emulator's mapped pages after the last call
           ret
 vars == <<live, pages, ret>>
@@ -23,9 +29,10 @@ Overlap(r, s) == r.a < s.a + Span(s) /\ s.a < r.a + Span(r)
 
 (* the allocator returned address a for a request of n bytes; pg are the mapped pages after the call *)
 Alloc(kind, n, a, pg) ==
-  LET r == [a |-> a, n |-> n] IN
+  LET r == [a |-> a, n |-> n, k |-> kind] IN
   /\ Covered(pg, a, n)                                 \* a mapped region of at least the requested size
-  /\ \A s \in live : ~Overlap(r, s)                    \* overlapping no live allocation, at a fresh address
+  /\ \/ \A s \in live : ~Overlap(r, s)                 \* overlapping no live allocation, at a fresh address
+     \/ BrkAbsorbs /\ kind = "brk" /\ \A s \in live : Overlap(r, s) => s.k # "brk"
   /\ live' = live \cup {r}
   /\ pages' = pg
   /\ ret' = "ok"
